@@ -47,8 +47,8 @@ where
         b: &[T],
         cones: &[SupportedConeT<T>],
         _settings: &DefaultSettings<T>,
+        infbound: f64,
     ) -> Self {
-        let infbound = crate::get_infinity();
 
         // make copy of cones to protect from user interference
         let init_cones = cones.to_vec();
